@@ -36,6 +36,6 @@ func runSibling(c *Ctx) {
 	}
 	p := mustLoad(c, K1)
 	rule := c.Prop + ".sibling"
-	c.Rule(rule, "SIBLING-AGREEMENT: every function of the property's anchor packages that exists in at least 4 instantiations of its template (curves; G1/G2 of one curve; field packages with the same limb count) has the same order-insensitive multiset of statement descriptors (calls with provenance-described operands, comparisons, stores, returns; large constants abstracted, names normalised) as the strict majority of its siblings, unless the member is a listed template variant. A single deviating member is reported with what it lacks / has instead", sc.floor)
+	c.Rule(rule, "SIBLING-AGREEMENT (generated code is an instantiation of its template): every function defined in a file with the 'Code generated ... DO NOT EDIT' header that exists in at least 4 instantiations of its template (curves; G1/G2 of one curve; field packages with the same limb count) has the same order-insensitive multiset of statement descriptors (calls with provenance-described operands, branch conditions, stores, returns, each with the guards it sits under; large constants abstracted, names normalised) as the strict majority of its siblings, unless the member is a listed template variant. A single deviating generated member is reported with what it lacks / has instead; hand-written files take part in the comparison but are never reported", sc.floor)
 	SiblingCheck(c, p, rule, sc.fams, regexp.MustCompile(sc.filter))
 }
